@@ -219,6 +219,10 @@ static int vpe_gethostname(char *name, size_t len) { (void)name; (void)len; retu
 #define sendto(a, b, c, d, e, f) vpe_sendto((a), (b), (c), (d), (e), (f))
 #define recvfrom(a, b, c, d, e, f) vpe_recvfrom((a), (b), (c), (d), (e), (f))
 #define gethostname(a, b) vpe_gethostname((a), (b))
+#include "util-internal.h"
+int vpe_gai_fn_set, vpe_gai_cancel_fn_set;
+void evutil_set_evdns_getaddrinfo_fn_(evdns_getaddrinfo_fn fn) { (void)fn; vpe_gai_fn_set++; }
+void evutil_set_evdns_getaddrinfo_cancel_fn_(evdns_getaddrinfo_cancel_fn fn) { (void)fn; vpe_gai_cancel_fn_set++; }
 int evutil_secure_rng_init(void) { return 0; }
 void evutil_secure_rng_get_bytes(void *buf, size_t n) { vp_bytes(buf, n); }
 
